@@ -27,6 +27,10 @@ def run(chk, repo, tier):
     from .common import no_hidden_state
     no_hidden_state(chk, repo, 'C07')
     chk.clause('C07-o', 'the views and the plane product leave the wavefront and the plane untouched', 4)
+    # the phasor is built from the plane's own arrays: a copy of the plane that shares them (a shallow copy) lets work done
+    # on the copy - fit_tilt(inplace=False) subtracts in place - change what the original multiplies by
+    from .c10 import plane_copy_rules
+    plane_copy_rules(chk, repo, 'C07-o')
     from .common import operands_untouched
     operands_untouched(chk, repo, 'C07-o', ['wavefront.Wavefront.intensity', 'wavefront.Wavefront.field', 'wavefront.Wavefront.insert', 'plane.Plane.multiply', 'wavefront.Wavefront.__mul__', 'wavefront.Wavefront.__rmul__', 'field.merge', 'field._merge', 'field.reduce', 'field.Field.__mul__'], allow=[('wavefront.Wavefront.insert', 'out')])
     chk.clause('C07-a', 'intensity = |coherent field|^2: reduce before modulus; the two insert branches differ only by abs(.**2)', 3)
